@@ -1,22 +1,87 @@
 """Per-path hygiene: every explored path (and every replay / enumerated case) starts from the state of a fresh process.
 
-Memoisation caches inside the robotools modules are hidden process state; a path that inherits entries written by a previously
-explored path would not be reproducible by a replay.  Histories that matter are made explicit in the scenarios instead
-(a scenario performs the earlier calls itself)."""
+Memoisation caches and mutable module- or class-level containers inside the robotools modules are hidden process state; a path
+that inherits entries written by a previously explored path would not be reproducible by a replay.  Histories that matter are made
+explicit in the scenarios instead (a scenario performs the earlier calls itself)."""
+import copy
 import sys
+
+_SNAP = None
+
+
+def _robotools_modules():
+    for name, mod in list(sys.modules.items()):
+        if mod is not None and (name == "robotools" or name.startswith("robotools.")) and ".test_" not in name:
+            yield mod
+
+
+def _containers():
+    seen = set()
+    for mod in _robotools_modules():
+        for name, obj in list(vars(mod).items()):
+            if name.startswith("__"):
+                continue
+            if isinstance(obj, (dict, list, set)) and id(obj) not in seen:
+                seen.add(id(obj))
+                yield obj
+            if isinstance(obj, type) and str(getattr(obj, "__module__", "")).startswith("robotools"):
+                for an, av in list(vars(obj).items()):
+                    if not an.startswith("__") and isinstance(av, (dict, list, set)) and id(av) not in seen:
+                        seen.add(id(av))
+                        yield av
+
+
+def _load_all():
+    """import every robotools module now, so that the first snapshot is the state of a fresh process"""
+    import importlib
+    import pkgutil
+    try:
+        import robotools
+    except Exception:  # noqa: BLE001
+        return False
+    for mi in pkgutil.walk_packages(robotools.__path__, "robotools."):
+        if ".test_" not in mi.name:
+            try:
+                importlib.import_module(mi.name)
+            except Exception:  # noqa: BLE001
+                pass
+    return True
 
 
 def reset_process_state():
+    global _SNAP
     n = 0
-    for name, mod in list(sys.modules.items()):
-        if mod is None or not (name == "robotools" or name.startswith("robotools.")):
-            continue
+    if _SNAP is None and not _load_all():
+        return 0
+    for mod in _robotools_modules():
         for obj in list(vars(mod).values()):
             n += _clear(obj)
-            if isinstance(obj, type) and getattr(obj, "__module__", "").startswith("robotools"):
+            if isinstance(obj, type) and str(getattr(obj, "__module__", "")).startswith("robotools"):
                 for attr in list(vars(obj).values()):
                     n += _clear(getattr(attr, "__func__", attr))
                     n += _clear(getattr(attr, "fget", None))
+    if _SNAP is None:
+        _SNAP = []
+        for obj in _containers():
+            try:
+                _SNAP.append((obj, copy.deepcopy(obj)))
+            except Exception:  # noqa: BLE001
+                pass
+    else:
+        for obj, saved in _SNAP:
+            try:
+                fresh = copy.deepcopy(saved)
+                if isinstance(obj, dict):
+                    if obj != fresh or len(obj) != len(fresh):
+                        obj.clear()
+                        obj.update(fresh)
+                elif isinstance(obj, list):
+                    obj[:] = fresh
+                else:
+                    obj.clear()
+                    obj.update(fresh)
+            except Exception:  # noqa: BLE001
+                pass
     return n
 
 
